@@ -42,7 +42,7 @@ namespace Rotonda.RibMetrics
 open Rotonda.Rib
 
 /-- `usize::MAX + 1` on the 64-bit targets rotonda is built for. -/
-def W : Nat := 2 ^ 64
+def W : Nat := 18446744073709551616
 
 /-- Defect-site variants (both settings are models of *some* code).
     * `durationFix = false`: as written, operands of `duration_since` swapped, durations are 0;
